@@ -96,6 +96,8 @@ Definition r_bitmap {T} (bm : bytes -> outcome T) : M T :=
 
 (** make(map, l) / make([]T, l): checked, and accounted *)
 Definition m_make (l : Z) : M unit := mdo n <- lift (go_make l); m_alloc n.
+(** l := r.length(); x := make(..., l) *)
+Definition r_count : M Z := mdo l <- r_length; mdo _ <- m_make l; ret l.
 
 (** ---- stringSetDecode *)
 Fixpoint rd_strs (n : nat) (acc : list bytes) : M (list bytes) :=
@@ -106,15 +108,17 @@ Fixpoint rd_strs (n : nat) (acc : list bytes) : M (list bytes) :=
 Definition dec_set_m : M (list bytes) :=
   mdo v <- r_byt;
   if negb (v =? 1) then m_fail 2 else
-  mdo l <- r_length; mdo _ <- m_make l; rd_strs (Z.to_nat l) [].
+  mdo l <- r_count; rd_strs (Z.to_nat l) [].
 
 (** ---- reposMapDecode *)
 Definition branch := (bytes * bytes)%type.
 Definition rentry := (bool * Z * list branch)%type.        (* HasSymbols, IndexTimeUnix, Branches *)
+Definition r_branch : M branch :=      (* append(allBranches, RepositoryBranch{Name: r.str(), Version: r.str()}) *)
+  mdo nm <- r_str; mdo ver <- r_str; mdo _ <- m_alloc 1; ret (nm, ver).
 Fixpoint rd_branches (n : nat) (all : list branch) : M (list branch) :=
   match n with
   | O => ret all
-  | S k => mdo nm <- r_str; mdo ver <- r_str; mdo _ <- m_alloc 1; rd_branches k (all ++ [(nm, ver)])
+  | S k => mdo b <- r_branch; rd_branches k (all ++ [b])
   end.
 Fixpoint rd_entries (n : nat) (v2 : bool) (all : list branch) (m : list (N * rentry)) : M (list (N * rentry)) :=
   match n with
@@ -134,8 +138,8 @@ Definition dec_repos_m : M (option (list (N * rentry))) :=
   | _ =>
       mdo v <- r_byt;
       if negb ((v =? 1) || (v =? 2)) then m_fail 2 else
-      mdo l <- r_length; mdo _ <- m_make l;
-      mdo abl <- r_length; mdo _ <- m_make abl;
+      mdo l <- r_count;
+      mdo abl <- r_count;
       mdo m <- rd_entries (Z.to_nat l) (v =? 2) [] [];
       ret (Some m)
   end.
@@ -149,7 +153,7 @@ Fixpoint rd_brs {T} (bm : bytes -> outcome T) (n : nat) (acc : list (bytes * T))
 Definition dec_br_m {T} (bm : bytes -> outcome T) : M (list (bytes * T)) :=
   mdo v <- r_byt;
   if negb (v =? 1) then m_fail 2 else
-  mdo l <- r_length; mdo _ <- m_make l; rd_brs bm (Z.to_nat l) [].
+  mdo l <- r_count; rd_brs bm (Z.to_nat l) [].
 
 (** top level: the decoders clone their input first (alloc |b|) *)
 Definition run {A} (m : M A) (b : bytes) : outcome A * st := m (mkst b 0 (length b)).
